@@ -1,96 +1,75 @@
 import OntVerif.Proofs.P2PMsgTop
+import OntVerif.Gen.P2PAlloc
 /-!
 # C24 — P2P message decoding never panics and round-trips every message
 
 Property theorems only.  Model: `Model/P2PMsg.lean` (`types.ReadMessage`, `makeEmptyMessage`, the `Deserialization` /
-`Serialization` methods of 16 message shapes + unknown commands; the decoders that call into `core/types` or the crypto
-library return `Msg.opaque` and are explored by the harness only).  `Variant.asShipped` mirrors the tree as it is
-(`Addr.Deserialization` panics for `count ≥ 2^63`), `Variant.sound` mirrors it with `fixes/C24-addr-count.patch`
-(`if count > source.Len() { return io.ErrUnexpectedEOF }` before the loop).
-The checksum `H` is an abstract function; `magic` is `config.DefConfig.P2PNode.NetworkMagic`.
+`Serialization` methods of 20 message shapes + unknown commands, for the tree as it is — the two repaired sites,
+`Addr.Deserialization` (f30d0344) and `OfflineWitnessMsg.Deserialization` (aec3cc8d), are mirrored as repaired; their old
+witnesses stay in `corpus/C24/`).  `block`, `tx`, `offline` return `Msg.opaque` (explored by the harness only).
+Abstract parameters: the checksum `H`; `magic` = `config.DefConfig.P2PNode.NetworkMagic`; `O : Oracle` = the calls out of
+the package (public-key parsing, kad-id difficulty, `signature.Verify`, the wall-clock test of `getmembers`, the embedded
+`core/types.Header` decoder).  All theorems hold for EVERY oracle unless `O.wf` is assumed explicitly.
 -/
 namespace OntVerif.Props.C24
 open OntVerif.Util OntVerif.Model.Codec OntVerif.Model.P2PMsg OntVerif.Proofs.P2PMsg
 
 /-- The literal statement: every payload of every command either is rejected or decodes to a message whose
 re-serialization is the payload; never a panic. -/
-def C24_full_statement (v : Variant) : Prop :=
+def C24_full_statement (O : Oracle) : Prop :=
   ∀ cmd p : Bytes, p.length ≤ MAX_PAYLOAD_LEN →
-    match decodeAll v cmd p with
+    match decodeAll O cmd p with
     | .panic => False
-    | .err _ => True
+    | .err _ _ => True
     | .ok (m, _) => m.isOpaque = true ∨ encode m = p
 
-/-- **No panic** (repaired tree): every payload of every command, of any length below 2^63 (a Go `int`; `ReadMessage` caps it
-at `MAX_PAYLOAD_LEN`), is decoded to a message or an error.  Every Go slice expression reached (`s[off:end]` in the source,
-`NodeAddrs[:count]`, `Blk[:blkCnt]`) is in range. -/
-theorem C24_total (cmd p : Bytes) (hl : p.length < 2 ^ 63) : decodeAll .sound cmd p ≠ .panic :=
-  (spec_decodePayload cmd).noPanic (St.init p) ⟨by simp [St.init], by simp [St.init]; unfold two64; omega⟩
+/-- **No panic**: every payload of every command, of any length below 2^63 (a Go `int`; `ReadMessage` caps it at
+`MAX_PAYLOAD_LEN`), is decoded to a message or an error, whatever the callees return.  Every Go slice expression reached
+(`s[off:end]` in the source, `NodeAddrs[:count]`, `Blk[:blkCnt]`) is in range. -/
+theorem C24_total (O : Oracle) (cmd p : Bytes) (hl : p.length < 2 ^ 63) : decodeAll O cmd p ≠ .panic :=
+  (spec_decodePayload O cmd).noPanic (St.init p) ⟨by simp [St.init], by simp [St.init]; unfold two64; omega⟩
     (by simpa [St.init] using hl)
 
-/-- `ReadMessage` never panics on any byte stream, any magic, any checksum function. -/
-theorem C24_readMessage_total (magic : Nat) (H : Bytes → Bytes) (stream : Bytes) (hl : stream.length < two64) :
-    readMessage .sound magic H stream ≠ .panic :=
-  readMessage_noPanic magic H stream hl
+/-- `ReadMessage` never panics on any byte stream, any magic, any checksum function, any callee behaviour. -/
+theorem C24_readMessage_total (O : Oracle) (magic : Nat) (H : Bytes → Bytes) (stream : Bytes) (hl : stream.length < two64) :
+    readMessage O magic H stream ≠ .panic :=
+  readMessage_noPanic O magic H stream hl
 
 /-- the reader goroutine `link.Rx` (no `recover`) survives every stream -/
-theorem C24_rx_total (magic : Nat) (H : Bytes → Bytes) (fuel : Nat) (stream : Bytes) (hl : stream.length < two64) :
-    rxLoop .sound magic H fuel stream ≠ none :=
-  rxLoop_noPanic magic H fuel stream hl
+theorem C24_rx_total (O : Oracle) (magic : Nat) (H : Bytes → Bytes) (fuel : Nat) (stream : Bytes) (hl : stream.length < two64) :
+    rxLoop O magic H fuel stream ≠ none :=
+  rxLoop_noPanic O magic H fuel stream hl
 
-/-- **The unchanged tree panics**: `addr` payload = uint64 2^63 (8 bytes): `int(count) < 0`, the loop is skipped,
-`this.NodeAddrs[:64]` on a nil slice.  This witness is the replay of finding `decoder-panic:addr`. -/
-theorem C24_asShipped_counterexample : ¬ C24_full_statement .asShipped := by
-  intro h
-  have e : decodeAll .asShipped cAddr [0, 0, 0, 0, 0, 0, 0, 0x80] = .panic := by decide
-  have := h cAddr [0, 0, 0, 0, 0, 0, 0, 0x80] (by decide)
-  rw [e] at this
-  exact this
-
-/-- as shipped, a panic can only come from the `addr` decoder -/
-theorem C24_total_asShipped_partial (cmd p : Bytes) (hl : p.length < 2 ^ 63) (hc : cmd ≠ cAddr) :
-    decodeAll .asShipped cmd p ≠ .panic := by
-  unfold decodeAll
-  rw [decodePayload_variant cmd hc]
-  exact C24_total cmd p hl
-
-/-- the patch changes nothing but the panic: wherever the shipped decoder returns (a message *or* an error), the
-repaired one returns exactly the same -/
-theorem C24_patch_conservative (cmd p : Bytes) (hl : p.length < 2 ^ 63) (h : decodeAll .asShipped cmd p ≠ .panic) :
-    decodeAll .asShipped cmd p = decodeAll .sound cmd p :=
-  decodeAll_conservative cmd p hl h
-
-/-- **decode ∘ encode = id** for every well-formed message of every modelled type (both variants): the whole payload is
-consumed and nothing is dropped.  `Msg.wf` = field ranges of the Go types, lists within the caps (`Addr`, `Inv`: 64), peer
-ids in `Addr` are pseudo ids (the wire carries a uint64). -/
-theorem C24_rt (v : Variant) (m : Msg) (hw : m.wf) (hl : (encode m).length < two64) :
-    decodeAll v m.cmd (encode m) = .ok (m, ⟨⟨encode m, (encode m).length⟩, false⟩) :=
-  decodeAll_rt v m hw hl
+/-- **decode ∘ encode = id** for every well-formed message of every modelled type: the whole payload is consumed and
+nothing is dropped.  `Msg.wf O` = field ranges of the Go types, lists within the caps (`Addr`, `Inv`: 64), peer ids in
+`Addr` are pseudo ids (the wire carries a uint64), keys are canonical and accepted by the callees (`O.pk k = some k`, a
+kad id passes the difficulty test, a signed `getmembers` request is fresh and verifies), embedded headers parse back. -/
+theorem C24_rt (O : Oracle) (m : Msg) (hw : m.wf O) (hl : (encode m).length < two64) :
+    ∃ al, decodeAll O m.cmd (encode m) = .ok (m, ⟨⟨encode m, (encode m).length⟩, false, al⟩) :=
+  decodeAll_rt O m hw hl
 
 /-- `ReadMessage (WriteMessage m ‖ rest) = (m, len, rest)`: header, length, checksum and dispatch included -/
-theorem C24_rt_frame (v : Variant) (magic : Nat) (H : Bytes → Bytes) (m : Msg) (rest : Bytes) (hf : Framable H magic m) :
-    readMessage v magic H (writeMessage magic H m ++ rest) =
-      .ok ⟨m, (encode m).length, rest, (encode m).length, ⟨⟨encode m, (encode m).length⟩, false⟩⟩ :=
-  readMessage_rt v magic H m rest hf
+theorem C24_rt_frame (O : Oracle) (magic : Nat) (H : Bytes → Bytes) (m : Msg) (rest : Bytes) (hf : Framable O H magic m) :
+    ∃ al, readMessage O magic H (writeMessage magic H m ++ rest) =
+      .ok ⟨m, (encode m).length, rest, (encode m).length, ⟨⟨encode m, (encode m).length⟩, false, al⟩⟩ :=
+  readMessage_rt O magic H m rest hf
 
 /-- **encode ∘ decode = id on canonical payloads**: if decoding `p` succeeds, consumes all of `p` and never had to drop
-information (no ignored `irregular` flag, no list cut to its cap, no `SoftVersion` fallback — `canonicalEnd`), then the
-re-serialization of the decoded message is `p`. -/
-theorem C24_reencode_partial (v : Variant) (cmd p : Bytes) (hl : p.length < 2 ^ 63) (m : Msg) (st : St)
-    (h : decodeAll v cmd p = .ok (m, st)) (hc : canonicalEnd p st = true) (ho : m.isOpaque = false) :
-    encode m = p := by
-  cases v with
-  | sound => exact decodeAll_reencode cmd p hl m st h hc ho
-  | asShipped =>
-    have := decodeAll_conservative cmd p hl (by rw [h]; simp)
-    rw [h] at this
-    exact decodeAll_reencode cmd p hl m st this.symm hc ho
+information (no ignored `irregular` flag, no list cut to its cap, no `SoftVersion` fallback, no non-canonical key or
+header encoding — `canonicalEnd`), then the re-serialization of the decoded message is `p`. -/
+theorem C24_reencode_partial (O : Oracle) (cmd p : Bytes) (hl : p.length < 2 ^ 63) (m : Msg) (st : St)
+    (h : decodeAll O cmd p = .ok (m, st)) (hc : canonicalEnd p st = true) (ho : m.isOpaque = false) :
+    encode m = p :=
+  decodeAll_reencode O cmd p hl m st h hc ho
 
-/-- The literal statement is false even for the repaired tree: decoders ignore trailing bytes (`ping` + 1 byte).
+/-- The literal statement is false: decoders ignore trailing bytes (`ping` + 1 byte).
 Findings `trailing-bytes-ignored:*`, `list-truncated:*`, `noncanonical-accepted:*`. -/
-theorem C24_sound_literal_counterexample : ¬ C24_full_statement .sound := by
+theorem C24_literal_counterexample (O : Oracle) : ¬ C24_full_statement O := by
   intro h
-  have e : decodeAll .sound cPing [1, 0, 0, 0, 0, 0, 0, 0, 9] = .ok (.ping 1, ⟨⟨[1, 0, 0, 0, 0, 0, 0, 0, 9], 8⟩, false⟩) := by decide
+  have e : decodeAll O cPing [1, 0, 0, 0, 0, 0, 0, 0, 9] = .ok (.ping 1, ⟨⟨[1, 0, 0, 0, 0, 0, 0, 0, 9], 8⟩, false, 0⟩) := by
+    unfold decodeAll
+    rw [(decodePayload_known O).1]
+    decide
   have := h cPing [1, 0, 0, 0, 0, 0, 0, 0, 9] (by decide)
   rw [e] at this
   rcases this with h | h
@@ -100,18 +79,48 @@ theorem C24_sound_literal_counterexample : ¬ C24_full_statement .sound := by
 /-- **Header checks**: a message is delivered only if the stream starts with the configured magic, the announced length
 is ≤ `MAX_PAYLOAD_LEN`, that many payload bytes follow, their checksum equals the header's, and the payload decodes under
 the zero-trimmed command; the only allocation sized by the header (`make([]byte, hdr.Length)`) is ≤ `MAX_PAYLOAD_LEN`. -/
-theorem C24_header_checks (v : Variant) (magic : Nat) (H : Bytes → Bytes) (stream : Bytes) (r : ReadOk)
-    (h : readMessage v magic H stream = .ok r) :
+theorem C24_header_checks (O : Oracle) (magic : Nat) (H : Bytes → Bytes) (stream : Bytes) (r : ReadOk)
+    (h : readMessage O magic H stream = .ok r) :
     24 ≤ stream.length ∧ fromLE (stream.take 4) = magic ∧ r.len = fromLE ((stream.drop 16).take 4) ∧
     r.len ≤ MAX_PAYLOAD_LEN ∧ r.alloc ≤ MAX_PAYLOAD_LEN ∧ 24 + r.len + r.rest.length = stream.length ∧
     H ((stream.drop 24).take r.len) = (stream.drop 20).take 4 ∧
-    decodePayload v (trimRight0 ((stream.drop 4).take 12)) (St.init ((stream.drop 24).take r.len)) = .ok (r.msg, r.fin) :=
-  readMessage_checks v magic H stream r h
+    decodePayload O (trimRight0 ((stream.drop 4).take 12)) (St.init ((stream.drop 24).take r.len)) = .ok (r.msg, r.fin) :=
+  readMessage_checks O magic H stream r h
 
-/-- **Allocation in the `Addr` loop**: every `append` is paid for by 44 payload bytes (unconditionally, also when the list
-is cut afterwards): `n` iterations ⇒ `8 + 44·n ≤ |p|`. -/
+/-- **Allocation**: along every run of every decoder — also one that ends in an error — the allocation events
+(`St.allocs`: one unit per `append` of a decoded element; a `make(…, n)` would count `n`) are paid for by consumed payload
+bytes at the per-command rate `entryCost` (addr 28, inv 32, findnodeack 21, members 2, headers 139, 1 otherwise); hence
+at most `|p| / entryCost` elements are ever allocated and nothing is allocated in proportion to an unvalidated count.
+(`O.wf`: the embedded header decoder consumes what it reports, at least a minimal header.) -/
+theorem C24_alloc (O : Oracle) (hO : O.wf) (cmd p : Bytes) (hl : p.length < 2 ^ 63) :
+    match decodeAll O cmd p with
+    | .panic => True
+    | .err _ s' => entryCost cmd * s'.allocs ≤ s'.src.off ∧ s'.src.off ≤ p.length
+    | .ok (_, s') => entryCost cmd * s'.allocs ≤ s'.src.off ∧ s'.src.off ≤ p.length := by
+  have h := (pay_decodePayload O hO cmd).run (St.init p) ⟨by simp [St.init], by simp [St.init]; unfold two64; omega⟩
+    (by simpa [St.init] using hl)
+  unfold decodeAll
+  cases hd : decodePayload O cmd (St.init p) with
+  | panic => trivial
+  | err e s' =>
+    rw [hd] at h
+    obtain ⟨adv, _, hp⟩ := h
+    have := adv.2.2
+    rw [adv.1] at this
+    simp only [St.init] at hp this ⊢
+    exact ⟨by omega, this⟩
+  | ok r =>
+    obtain ⟨m, s'⟩ := r
+    rw [hd] at h
+    obtain ⟨adv, _, hp⟩ := h
+    have := adv.2.2
+    rw [adv.1] at this
+    simp only [St.init] at hp this ⊢
+    exact ⟨by omega, this⟩
+
+/-- the sharper success bound for `Addr`: 44 bytes per entry -/
 theorem C24_alloc_addr (p : Bytes) (hl : p.length < 2 ^ 63) (m : Msg) (st : St)
-    (h : decAddr .sound (St.init p) = .ok (m, st)) :
+    (h : decAddr (St.init p) = .ok (m, st)) :
     ∃ l n, m = .addr l ∧ l.length ≤ n ∧ 8 + 44 * n ≤ p.length := by
   have hs := spec_decAddr_alloc (St.init p) ⟨by simp [St.init], by simp [St.init]; unfold two64; omega⟩
     (by simpa [St.init] using hl)
@@ -126,17 +135,36 @@ theorem C24_alloc_addr (p : Bytes) (hl : p.length < 2 ^ 63) (m : Msg) (st : St)
   simp [St.init]
   omega
 
+/-- **No count-sized `make` in the package** (generated from the Go sources on every run): the only `make` calls of
+`p2pserver/message/types` (non-test) are the reviewed ones below — none inside a decoder, none sized by a decoded count
+(`ReadMessage` sizes its buffer by `hdr.Length` only after the `MAX_PAYLOAD_LEN` check, mirrored as `ReadOk.alloc`) — and
+the loops bounded by a decoded count are exactly the ones the model mirrors with `repeatD`. -/
+theorem C24_make_sites :
+    OntVerif.Gen.P2PAlloc.makeSites =
+      ["message.go:readMessageHeader#0: make([]byte, comm.UINT32_SIZE+common.MSG_CMD_LEN+comm.UINT…",
+       "message.go:ReadMessage#0: make([]byte, hdr.Length)"] ∧
+    OntVerif.Gen.P2PAlloc.countSizedMakes = [] ∧
+    OntVerif.Gen.P2PAlloc.countLoops =
+      ["address.go:Addr.Deserialization#0: for i < int(count)",           -- decAddr
+       "block_header.go:BlkHeader.Deserialization#0: for i < int(count)",  -- decHeaders
+       "find_node.go:FindNodeResp.Deserialization#0: for i < int(numCloser)",  -- decFindNodeResp
+       "inventory.go:Inv.Deserialization#0: for i < int(blkCnt)",          -- decInv
+       "offline_witness.go:OfflineWitnessMsg.Deserialization#0: for i < lenPubKeys",  -- not modelled (≤ 255 by an explicit check)
+       "offline_witness.go:OfflineWitnessMsg.Deserialization#1: for i < lenVoters",   -- not modelled (`offline` is explored only)
+       "subnet.go:SubnetMembers.Deserialization#0: for i < num"] :=         -- decMembers
+  ⟨rfl, rfl, rfl⟩
+
 /-! ### Non-vacuity -/
-example : (Msg.addr [⟨1, 2, List.replicate 16 7, 80, 81, pseudoPeerId 5⟩]).wf := by
+def O0 : Oracle := ⟨fun b => some b, fun _ => true, fun _ _ _ => true, fun _ => false, fun _ => none⟩
+example : O0.wf := by intro b n re h; cases h
+example : (Msg.addr [⟨1, 2, List.replicate 16 7, 80, 81, pseudoPeerId 5⟩]).wf O0 := by
   refine ⟨by decide, ?_⟩
   intro a ha
   simp only [List.mem_singleton] at ha
   subst ha
   exact ⟨by decide, by decide, by decide, by decide, by decide, 5, by decide, rfl⟩
-example : decodeAll .sound cPing [1, 0, 0, 0, 0, 0, 0, 0] = .ok (.ping 1, ⟨⟨[1, 0, 0, 0, 0, 0, 0, 0], 8⟩, false⟩) := by decide
-example : canonicalEnd [1, 0, 0, 0, 0, 0, 0, 0] ⟨⟨[1, 0, 0, 0, 0, 0, 0, 0], 8⟩, false⟩ = true := by decide
-example : decodeAll .asShipped cAddr [0, 0, 0, 0, 0, 0, 0, 0] = decodeAll .sound cAddr [0, 0, 0, 0, 0, 0, 0, 0] := by decide
-example : decodeAll .sound cAddr [0, 0, 0, 0, 0, 0, 0, 0x80] = .err .ueof := by decide
-example : Framable (fun _ => [1, 2, 3, 4]) 7 (.ping 9) := ⟨by show (9 : Nat) < 2 ^ 64; decide, by decide, by decide, fun _ => rfl⟩
+example : (Msg.updateKadId [3, 1, 2, 3]).wf O0 := ⟨rfl, rfl⟩
+example : canonicalEnd [1, 0, 0, 0, 0, 0, 0, 0] ⟨⟨[1, 0, 0, 0, 0, 0, 0, 0], 8⟩, false, 0⟩ = true := by decide
+example : Framable O0 (fun _ => [1, 2, 3, 4]) 7 (.ping 9) := ⟨by show (9 : Nat) < 2 ^ 64; decide, by decide, by decide, fun _ => rfl⟩
 
 end OntVerif.Props.C24
